@@ -12,7 +12,9 @@ A scenario is a JSON-able dict:
 A caller with "retry": true whose operation fails with an exception re-opens the connection
 (channel.close(), transport.open(), channel.open(): what Driver.close / Driver.open do) and runs the operation once more.
 faults: raise|boom (k-th transport call of the caller raises), timeout / timeout_lockwait / timeout_stuck,
-cancel / cancel_lockwait (asyncio: the caller's task is cancelled at its k-th transport call / in the lock queue)."""
+cancel / cancel_lockwait (asyncio: the caller's task is cancelled at its k-th transport call / in the lock queue).
+"commandeer": {"a_lock": bool, "b_lock": bool, "on": "A"|"B"}: a two-connection history (see _commandeered); `lock` is
+the channel_lock the callers' connection was BUILT with."""
 import logging
 import unittest.mock
 
@@ -37,6 +39,60 @@ def _channel(stack, lock, transport_factory, sched=None):
     ch = cls(transport=t, base_channel_args=args)
     ch.open()                   # (what Driver.open does after the transport is up)
     return ch, t, args
+
+
+def _lock_type(lock):
+    """type name of the lock object an attribute refers to (through the instrumented wrapper)"""
+    if lock is None:
+        return None
+    inner = getattr(lock, "inner", lock) if isinstance(lock, (S.SchedLock, S.ASchedLock)) else lock
+    return type(inner).__module__ + "." + type(inner).__name__
+
+
+def _commandeered(stack, scn, transport_factory, sched):
+    """the two-connection history  scn["commandeer"] = {"a_lock": bool, "b_lock": bool, "on": "A"|"B"}:
+    connection A (a real Driver / AsyncDriver built with channel_lock=a_lock) has the session -- the scripted
+    transport is attached to it the way A.open() leaves it --, connection B (built with channel_lock=b_lock)
+    takes it over with the REAL Driver.commandeer / AsyncDriver.commandeer; the callers then use connection
+    `on`.  Both channels are instances of the instrumented subclass (patched into the driver module while the
+    drivers are built).  Returns (channel, transport, channel args, lock object the callers' connection created)."""
+    import asyncio
+    spec = scn["commandeer"]
+    if stack == "sync":
+        import scrapli.driver.base.sync_driver as mod
+        cname, dname, wrapper, tname = "Channel", "Driver", S.SchedLock, "telnet"
+    else:
+        import scrapli.driver.base.async_driver as mod
+        cname, dname, wrapper, tname = "AsyncChannel", "AsyncDriver", S.ASchedLock, "asynctelnet"
+    if not hasattr(mod, cname) or not hasattr(mod, dname):
+        raise S.Wedged("%s no longer exposes %s / %s" % (mod.__name__, cname, dname))
+    inst = S.instrumented_channel_class(getattr(mod, cname), sched, wrapper)
+    kw = dict(host="sim", port=23, transport=tname, comms_prompt_pattern=PROMPT_PATTERN, comms_return_char="\n",
+              timeout_ops=0, timeout_socket=0, timeout_transport=0)
+    with unittest.mock.patch.object(mod, cname, inst):
+        conn = {"B": getattr(mod, dname)(channel_lock=spec["b_lock"], **kw),
+                "A": getattr(mod, dname)(channel_lock=spec["a_lock"], **kw)}
+    for k in ("A", "B"):
+        if not isinstance(conn[k].channel, inst):
+            raise S.Wedged("the driver did not build its channel from %s.%s" % (mod.__name__, cname))
+    t = transport_factory(conn["A"]._base_transport_args)
+    conn["A"].transport = t
+    conn["A"].channel.transport = t
+    conn["A"].channel.open()
+    tgt = conn[spec["on"]]
+    created = tgt.channel.channel_lock
+    created = created.inner if isinstance(created, wrapper) else created
+    if stack == "sync":
+        conn["B"].commandeer(conn["A"])
+    else:
+        loop = asyncio.new_event_loop()
+        try:
+            loop.run_until_complete(conn["B"].commandeer(conn["A"]))
+        finally:
+            loop.close()
+    if tgt.transport is not t or tgt.channel.transport is not t:
+        raise S.Wedged("after commandeer() connection %s does not drive the session's transport" % spec["on"])
+    return tgt.channel, t, tgt.channel._base_channel_args, created
 
 
 def _call(ch, spec):
@@ -92,11 +148,18 @@ def run_scenario(scn, choices=(), max_steps=4000):
     cls = S.ThreadSched if stack == "sync" else S.TaskSched
     sched = cls(n, wire, scn.get("faults", []), chooser, max_steps=max_steps)
     mk = S.make_sync_transport if stack == "sync" else S.make_async_transport
-    ch, t, args = _channel(stack, scn["lock"], lambda bta: mk(sched, bta), sched)
-    created = sched.lock_objects[0] if sched.lock_objects else None
-    created_type = None if created is None else type(created).__module__ + "." + type(created).__name__
-    if (ch.channel_lock is None) != (created is None):
-        created_type = "inconsistent: channel_lock is %r" % type(ch.channel_lock).__name__
+    if scn.get("commandeer"):
+        if scn["lock"] != scn["commandeer"]["%s_lock" % scn["commandeer"]["on"].lower()]:
+            raise ValueError("scenario: `lock` must be the channel_lock the callers' connection was built with")
+        ch, t, args, created = _commandeered(stack, scn, lambda bta: mk(sched, bta), sched)
+        created_type = None if created is None else type(created).__module__ + "." + type(created).__name__
+    else:
+        ch, t, args = _channel(stack, scn["lock"], lambda bta: mk(sched, bta), sched)
+        created = sched.lock_objects[0] if sched.lock_objects else None
+        created_type = None if created is None else type(created).__module__ + "." + type(created).__name__
+        if (ch.channel_lock is None) != (created is None):
+            created_type = "inconsistent: channel_lock is %r" % type(ch.channel_lock).__name__
+    lock_at_start = _lock_type(ch.channel_lock)      # what the callers will find
     results = {}
     timeouts = {int(k): v for k, v in scn.get("timeouts", {}).items()}
 
@@ -200,6 +263,8 @@ def run_scenario(scn, choices=(), max_steps=4000):
         "lock_created": created_type,
         "lock_free_at_end": (None if inner is None else (not (sched.final_lock if sched.final_lock is not None else sched.lock_probe()))),
         "lock_objects": len(sched.lock_objects),
+        "lock_at_start": lock_at_start,
+        "lock_at_end": _lock_type(ch.channel_lock),
         "pending_io": [list(x) for x in sched.pending_io],
         "stuck_owner": sched.final_owner,
         "choices": [list(x) for x in sched.choices],
